@@ -331,7 +331,13 @@ fn bucket_entries(bucket: &Path) -> std::io::Result<Vec<SerializableMetadata>> {
         .map(|file| {
             BufReader::new(file)
                 .lines()
-                .map_while(std::result::Result::ok)
+                // A line that is not valid UTF-8 is a damaged entry like any
+                // other: skip it and keep reading, as the async reader does.
+                .take_while(|line| match line {
+                    Ok(_) => true,
+                    Err(e) => e.kind() == ErrorKind::InvalidData,
+                })
+                .filter_map(std::result::Result::ok)
                 .filter_map(|entry| {
                     let entry_str = match entry.split('\t').collect::<Vec<&str>>()[..] {
                         [hash, entry_str] if hash_entry(entry_str) == hash => entry_str,
